@@ -207,6 +207,43 @@ class Ctx:
         raise Infra("trace validation of %s/%s gave no verdict (exit %d)\n%s" %
                     (area, module, r["code"], "\n".join(out.splitlines()[-50:])))
 
+    def validate_traces(self, area, module, tracefile, label="", max_rounds=4, **kw):
+        """Validate a file of concatenated executions (each starting with an "init" line).
+        A rejected execution becomes a violation (key = module + offending event name);
+        it is cut out and the rest is validated again, so one rejection does not hide others."""
+        lines = [x for x in open(tracefile).read().splitlines() if x.strip()]
+        ntr = sum(1 for x in lines if '"ev":"init"' in x.replace(" ", ""))
+        rounds = 0
+        while lines and rounds < max_rounds:
+            rounds += 1
+            cur = os.path.join(self.scratch, "cur_trace_%d.ndjson" % self._n)
+            open(cur, "w").write("\n".join(lines) + "\n")
+            ok, at, out = self.tlc_trace(area, module, cur, **kw)
+            if ok:
+                break
+            at = max(1, min(at if at and at > 0 else 1, len(lines)))
+            # locate the execution containing line `at`
+            start = at - 1
+            while start > 0 and '"ev":"init"' not in lines[start].replace(" ", ""):
+                start -= 1
+            end = at
+            while end < len(lines) and '"ev":"init"' not in lines[end].replace(" ", ""):
+                end += 1
+            try:
+                ev = json.loads(lines[at - 1]).get("ev", "?")
+            except Exception:
+                ev = "?"
+            inv = re.search(r"Invariant (\w+) is violated", out)
+            why = ("invariant %s violated in the state reached by line %d" % (inv.group(1), at)) if inv \
+                else ("no %s action of the specification matches line %d" % (module, at))
+            excerpt = lines[start:end]
+            self.violation("trace:%s:%s%s" % (module, ev, (":" + inv.group(1)) if inv else ""),
+                           "%s %s: %s; offending line: %s" % (label, module, why, lines[at - 1][:300]),
+                           dict(module=module, rejected_at=at - start, lines=excerpt[:400]))
+            lines = lines[:start] + lines[end:]
+        self.traces_validated += ntr
+        return ntr
+
     # --------------------------------------------------------------- Go harness
     def go_test(self, pkg, files, run, env=None, timeout=900, infile=None, race=False,
                 count=1, extra_args=None, test_timeout=None):
